@@ -12,6 +12,7 @@ import (
 	"fmt"
 	"os"
 	"strings"
+	"time"
 
 	"github.com/janelia-flyem/dvid/datastore"
 	"github.com/janelia-flyem/dvid/dvid"
@@ -267,10 +268,78 @@ func setup(run *lib.Run) {
 	must("kv W", dv.Post(node(w, "kv", "key/w"), []byte("w-value")))
 	must("commit W", dv.Commit(w))
 
+	// X: a committed node that stays the HEAD (leaf) of its own branch
+	x, r := dv.Branch(root, "leafx")
+	must("branch X", r)
+	uuidX = x
+	must("kv X", dv.Post(node(x, "kv", "key/x1"), []byte("x-value")))
+	if has["nj"] {
+		must("nj X", dv.Post(node(x, "nj", "key/1000?u=verif"), []byte(njA)))
+	}
+	if has["roi"] {
+		must("roi X", dv.Post(node(x, "roi", "roi"), []byte(roiA)))
+	}
+	if has["an"] {
+		must("an X", dv.Post(node(x, "an", "elements"), []byte(annotA)))
+	}
+	settle(x)
+	must("commit X", dv.PostJSON("/api/node/"+x+"/commit", map[string]interface{}{"note": "committed X", "log": []string{"x entry"}}))
+	xid, err := datastore.VersionFromUUID(dvid.UUID(x))
+	if err != nil {
+		panic(err)
+	}
+	verX = xid
+
 	u, r := dv.NewVersion(v)
 	must("newversion U", r)
 	uuidU = u
-	run.Extra["uuids"] = map[string]string{"R": uuidR, "V": uuidV, "W": uuidW, "U": uuidU}
+	run.Extra["uuids"] = map[string]string{"R": uuidR, "V": uuidV, "W": uuidW, "U": uuidU, "X": uuidX}
+}
+
+// ---- other ways of naming a node (datastore.MatchingUUID) ----
+
+type refForm struct{ Name, Ref string }
+
+// refForms lists the references that currently resolve to the target node, besides its full uuid:
+// a unique prefix, "<uuid>:<branch>" / "<prefix>:<branch>" / ":<branch>" when the node is the HEAD
+// of its branch, and the "~n" ancestor forms.  Every form is verified with MatchingUUID.
+func refForms(target string) []refForm {
+	uuid := *uuidOf[target]
+	var cands []refForm
+	cands = append(cands, refForm{"prefix", uuid[:14]})
+	branch := map[string]string{"V": "master", "X": "leafx", "U": "master", "W": "side"}[target]
+	// position of the node in the ancestry of its branch (0 = HEAD)
+	pos := -1
+	for try := 0; try < 8 && pos < 0; try++ { // (the walk can fail at random once a branch has two heads, see sendResolved)
+		if r := dv.Get("/api/repo/" + uuidR + "/branch-versions/" + branch); r.Status == 200 {
+			var anc []string
+			json.Unmarshal(r.Body, &anc)
+			for i, a := range anc {
+				if a == uuid {
+					pos = i
+				}
+			}
+		}
+	}
+	if pos == 0 {
+		cands = append(cands, refForm{"uuid:branch", uuidR + ":" + branch}, refForm{"prefix:branch", uuid[:14] + ":" + branch},
+			refForm{":branch", ":" + branch})
+	}
+	if pos >= 0 {
+		cands = append(cands, refForm{"uuid:branch~n", fmt.Sprintf("%s:%s~%d", uuidR, branch, pos)},
+			refForm{"prefix:branch~n", fmt.Sprintf("%s:%s~%d", uuid[:14], branch, pos)},
+			refForm{":branch~n", fmt.Sprintf(":%s~%d", branch, pos)})
+	}
+	var out []refForm
+	for _, c := range cands {
+		for try := 0; try < 8; try++ {
+			if got, _, err := datastore.MatchingUUID(c.Ref); err == nil && string(got) == uuid {
+				out = append(out, c)
+				break
+			}
+		}
+	}
+	return out
 }
 
 // fill writes content variant A through the documented POST endpoints.
@@ -314,12 +383,9 @@ func fill(v string, has map[string]bool, variant string) {
 
 // settle lets asynchronous syncs (label indexing, labelvol, annotation label index, labelsz, downres) finish
 func settle(v string) {
-	for _, in := range insts {
-		d, err := datastore.GetDataByUUIDName(dvid.UUID(v), dvid.InstanceName(in.Name))
-		if err == nil {
-			datastore.BlockOnUpdating(dvid.UUID(v), d.DataName())
-		}
-	}
+	// (datastore.BlockOnUpdating sleeps 100 ms per instance; poll the same conditions instead)
+	time.Sleep(60 * time.Millisecond)
+	quiesceN(30)
 }
 
 // ---- probes per (package, keyword, method) ----
